@@ -215,7 +215,7 @@ def gen_case(rng):
 
 
 def run(ctx):
-    total = 420 if ctx.tier == "quick" else 12000
+    total = 900 if ctx.tier == "quick" else 30000
     for _ in range(ctx.share(total)):
         if not ctx.time_left():
             break
